@@ -21,6 +21,14 @@ VERIF = os.path.dirname(os.path.dirname(os.path.abspath(__file__)))
 RUN_CPU_CAP_S = 20
 NWORKERS = int(os.environ.get('VERIF_WORKERS', '16'))
 SURVEY = bool(os.environ.get('VERIF_SURVEY'))
+# Hash-seed lanes: the interpreter's string hash seed (PYTHONHASHSEED) fixes
+# the iteration order of every set and of dicts keyed by hashes for a whole
+# process.  The main process runs under PYTHONHASHSEED=0; a part of the
+# random search runs in child processes under other hash seeds (derived from
+# VERIF_SEED), so that a result that depends on that order is explored
+# under more than one.  A replay file records the hash seed it needs.
+LANE = os.environ.get('VERIF_LANE')
+LANES = {'quick': [(4, 1)], 'thorough': [(3, 1), (3, 2)]}   # (workers, n)
 
 DEFAULTS = {
     'quick': {'runs': 10 ** 9, 'budget_s': 20.0, 'chunk': 100},
@@ -330,6 +338,7 @@ def write_replay(pid, scn, v, digest, extra=None):
     rf = {'property': pid, 'signature': {'oracle': v['oracle'],
                                          'detail': v['detail']},
           'violation': v, 'scenario': scn, 'digest': digest,
+          'hashseed': int(os.environ.get('PYTHONHASHSEED', '0') or 0),
           'tree_sha256': lib.tree_sha256()}
 
     if extra:
@@ -390,7 +399,7 @@ def run_check(pid, tier):
     known_lines = []
     stale = []
 
-    for f in findings:
+    for f in (findings if not LANE else ()):
         rp = os.path.join(VERIF, f['replay'])
 
         with open(rp) as fp:
@@ -412,7 +421,7 @@ def run_check(pid, tier):
     agg = new_agg()
 
     for f in load_findings().get('fixed', ()):
-        if not f.get('replay'):
+        if not f.get('replay') or LANE:
             continue
 
         with open(os.path.join(VERIF, f['replay'])) as fp:
@@ -435,18 +444,41 @@ def run_check(pid, tier):
     deadline = t0 + cfg['budget_s']
     tasks = []
 
-    if hasattr(mod, 'sweep_tasks'):
+    if hasattr(mod, 'sweep_tasks') and not LANE:
         tasks = list(mod.sweep_tasks(tier, master))
 
-    next_idx = 0
+    # index space of this lane (lanes never repeat each other's scenarios)
+    next_idx = int(LANE or 0) * 10 ** 8
+    cfg['runs'] += next_idx
     pending = set()
     harness_fail = None
+    lanes = []
+    nworkers = NWORKERS
 
-    with cf.ProcessPoolExecutor(max_workers=NWORKERS, mp_context=ctx) as ex:
+    if not LANE and not SURVEY and NWORKERS >= 8 and \
+       not os.environ.get('VERIF_NO_LANES'):
+        import subprocess
+        import tempfile
+
+        for nw, n in LANES[tier]:
+            hs = derive_seed(master, 'hashseed', tier, n) % (2 ** 32 - 1) + 1
+            fd, outp = tempfile.mkstemp(prefix='verif_lane_', suffix='.pkl')
+            os.close(fd)
+            env = dict(os.environ, PYTHONHASHSEED=str(hs), VERIF_LANE=str(n),
+                       VERIF_LANE_OUT=outp, VERIF_WORKERS=str(nw),
+                       VERIF_BUDGET_S=str(max(1.0, deadline - time.time())))
+            pr = subprocess.Popen(
+                [sys.executable, os.path.join(VERIF, 'check.py'),
+                 '--property', pid, '--tier', tier],
+                env=env, stdout=subprocess.PIPE, stderr=subprocess.STDOUT)
+            lanes.append((hs, outp, pr))
+            nworkers -= nw
+
+    with cf.ProcessPoolExecutor(max_workers=nworkers, mp_context=ctx) as ex:
         def submit_more():
             nonlocal next_idx
 
-            while len(pending) < NWORKERS * 2:
+            while len(pending) < nworkers * 2:
                 if tasks:
                     t = tasks.pop(0)
                     pending.add(ex.submit(
@@ -527,6 +559,52 @@ def run_check(pid, tier):
                              'shrink_execs': used})
         reported.append((path, vv))
 
+    if LANE:
+        # a hash-seed lane: hand everything to the parent, no verdict here
+        import pickle
+
+        with open(os.environ['VERIF_LANE_OUT'], 'wb') as fp:
+            pickle.dump({'agg': agg, 'reported': reported,
+                         'nsigs': len(seen), 'harness_fail': harness_fail},
+                        fp)
+
+        return 0
+
+    hash_seeds = [0]
+
+    for hs, outp, pr in lanes:
+        import pickle
+
+        try:
+            lout, _ = pr.communicate(timeout=cfg['budget_s'] + 900)
+        except Exception:
+            pr.kill()
+            harness_fail = harness_fail or \
+                'hash-seed lane %d did not finish' % hs
+            continue
+
+        try:
+            with open(outp, 'rb') as fp:
+                res = pickle.load(fp)
+
+            os.unlink(outp)
+        except Exception:
+            harness_fail = harness_fail or (
+                'hash-seed lane %d left no result:\n%s' % (
+                    hs, lout.decode('utf-8', 'replace')[-2000:]))
+            continue
+
+        hash_seeds.append(hs)
+        res['agg']['violations'] = []
+        merge_agg(agg, res['agg'])
+        harness_fail = harness_fail or res['harness_fail']
+
+        for path, vv in res['reported']:
+            if signature(vv) not in seen:
+                seen.add(signature(vv))
+                reported.append((path, vv))
+
+    agg['hash_seeds'] = hash_seeds
     wall = time.time() - t0
     ev = build_evidence(mod, pid, tier, master, agg, wall, search_s,
                         len(seen), known_lines, stale)
@@ -626,6 +704,14 @@ def build_evidence(mod, pid, tier, master, agg, wall, search_s, nviol,
         },
         'tree_sha256': lib.tree_sha256(),
         'workers': NWORKERS,
+        'hash_seeds': {
+            'values': agg.get('hash_seeds', [0]),
+            'note': 'PYTHONHASHSEED of the processes the scenarios ran in: '
+                    'the main process (sweeps, regressions, most of the '
+                    'random search) under 0, a share of the random search '
+                    'in child processes under seeds derived from '
+                    'VERIF_SEED; a replay file records the one it needs',
+        },
     }
     return {
         'property_id': pid,
